@@ -111,10 +111,9 @@ ATTR_LABELS = ("sigdef", "sigargs", "attrexpr", "callexpr", "dummyargs", "arglis
 SYNTAX_EXC_CLASSES = {"python", "unterminated-expr", "unterminated-filter", "unterminated-block", "unclosed-tag",
                       "unclosed-text-tag", "closing-without-opening", "closing-mismatch", "invalid-control-line",
                       "no-starting-keyword", "keyword-mismatch", "illegal-ternary", "unterminated-control", "deep-nesting"}
-# deep nesting in the default values of args="…" (block / page / call) is not analysed by any identifier visitor; it
+# (deep nesting in the default values of args="…" of block / page / call is not analysed by any identifier visitor; it
 # reaches FunctionDecl.get_argument_expressions' re-emission during code generation, which converts the RecursionError
-# itself since /repo ad93474 (before: it escaped bare - labels listed here are predicted to escape)
-DEEP_ESCAPES = ()
+# itself since /repo ad93474 - so every label of the deep-nesting class is predicted alike)
 
 # --------------------------------------------------------------------------------------------- the implementation
 
@@ -619,9 +618,6 @@ def compare_model(ctx, f, d, answers):
         want_cls = "exceptions.SyntaxException" if cls in SYNTAX_EXC_CLASSES else "exceptions.CompileException"
         if a[0] == "none":
             out.append(("codegen-node", "no token at offset %d" % f["construct"]["off"], impl_pos))
-        elif cls == "deep-nesting" and f.get("label") in DEEP_ESCAPES:
-            if d.get("mako"):
-                out.append(("deep-nesting-in-args-default", "escapes (no identifier visitor looks at it)", impl_pos))
         elif not (d["cls"] == want_cls and (d["lineno"], d["pos"]) == (int(a[3]), int(a[4]))):
             out.append(("codegen-node", answers["tokat"], impl_pos))
         if answers["struct"] != "ok":
